@@ -148,9 +148,11 @@ def rldecodeAux : Nat → Bytes → Except Err Bytes
   | 0, _ => .ok []
   | _ + 1, [] => .ok []                                     -- next(data_iter, 128)
   | fuel + 1, l :: rest =>
-    if l == 128 then .ok []
-    else if l.toNat < 128 then
-      let n := l.toNat + 1
+    -- the EOD byte, the two tests and the two counts are translated from runlength.py (`Gen.Filters`);
+    -- `rl_translated` proves that the two tests exhaust the non-EOD bytes and `RL_EOF_DEFAULT = RL_EOD`
+    if l.toNat = RL_EOD then .ok []
+    else if rlIsLiteral l.toNat then
+      let n := rlLiteralCount l.toNat
       if rest.length < n then .error .runtimeError          -- StopIteration inside the generator expression
       else match rldecodeAux fuel (rest.drop n) with
         | .ok r => .ok (rest.take n ++ r)
@@ -160,7 +162,7 @@ def rldecodeAux : Nat → Bytes → Except Err Bytes
       | [] => .error .stopIteration
       | b :: rest' =>
         match rldecodeAux fuel rest' with
-        | .ok r => .ok (List.replicate (257 - l.toNat) b ++ r)
+        | .ok r => .ok (List.replicate (rlRepeatCount l.toNat) b ++ r)
         | .error e => .error e
 
 def rldecode (data : Bytes) : Except Err Bytes := rldecodeAux (data.length + 1) data
